@@ -108,6 +108,19 @@ func genH264AUx(t *core.Tape, mtu int, allowParams bool, state *int, supersede b
 		au.units = append(au.units, u)
 	}
 	ordinary := func() {
+		if t.Chance(1, 10) {
+			for j := len(au.units) - 1; j >= 0; j-- {
+				if ty := au.units[j][0] & 0x1F; ty != 7 && ty != 8 && ty != 9 && ty != 12 && len(au.units[j]) < 4000 {
+					sib := siblingUnit(t, au.units[j], 1)
+					if len(sib) >= 2 && sib[len(sib)-1] != 0 {
+						au.units = append(au.units, sib)
+						*state = 0
+						return
+					}
+					break
+				}
+			}
+		}
 		typ := byte([]int{1, 5, 6, 2, 19, 23, 10, 13}[t.Intn(8)])
 		if t.Chance(1, 4) {
 			typ = byte(1 + t.Intn(23))
@@ -159,6 +172,35 @@ func genH264AUx(t *core.Tape, mtu int, allowParams bool, state *int, supersede b
 	}
 	au.annexb = annexB(t, au.units)
 	return au
+}
+
+// siblingUnit returns a copy of u (a NAL unit with hdr header bytes) that differs in one place: one body
+// byte changed (to a value that cannot complete a start code), the last byte dropped, or one byte added.
+// Consecutive units of real streams are often near-identical; anything keyed on "looks the same" meets it here.
+func siblingUnit(t *core.Tape, u []byte, hdr int) []byte {
+	v := append([]byte(nil), u...)
+	switch t.Intn(4) {
+	case 0:
+		return v // an exact repeat
+	case 1:
+		if len(v) > hdr+1 {
+			return v[:len(v)-1-b2i(v[len(v)-2] == 0)] // never leave a trailing zero
+		}
+	case 2:
+		return append(v, byte(0x80|t.Intn(128)))
+	}
+	if len(v) > hdr {
+		i := hdr + t.Intn(len(v)-hdr)
+		v[i] = byte(0x80 | t.Intn(128))
+	}
+	return v
+}
+
+func b2i(b bool) int {
+	if b {
+		return 1
+	}
+	return 0
 }
 
 // annexB frames units with 3- or 4-byte start codes drawn per unit.
@@ -349,6 +391,12 @@ func genH265Units(t *core.Tape, mtu int) [][]byte {
 	n := 1 + t.Intn(6)
 	var units [][]byte
 	for i := 0; i < n; i++ {
+		if i > 0 && t.Chance(1, 10) && len(units[i-1]) < 4000 {
+			if sib := siblingUnit(t, units[i-1], 2); len(sib) >= 3 && sib[len(sib)-1] != 0 {
+				units = append(units, sib)
+				continue
+			}
+		}
 		typ := byte([]int{1, 19, 32, 33, 34, 39, 0, 21, 47, 40}[t.Intn(10)])
 		if t.Chance(1, 4) {
 			typ = byte(t.Intn(48))
